@@ -205,17 +205,56 @@ func runC13World(w *World, tier string, spec *crashSpec, out *c13Run) (bool, int
 		}
 		afterStep()
 	}
-	c.L.AfterStep = step
-
-	round, rep := c.StartDKG(w.Tape.Choose(n, "proposer"), t, members)
-	if !rep.OK() && !rep.Crashed {
-		w.Fail("C13", "startdkg-rejected", rep.ErrMsg)
-		return false, nil
+	// proposals: a human whose command died with the process issues it again
+	// after the restart (same bytes, hence the same round id)
+	proposer := w.Tape.Choose(n, "proposer")
+	payload := w.StartDKGPayload(t, members)
+	round := RoundID(payload)
+	var retry []func() bool // each returns true when done
+	post := func() bool {
+		if w.Nodes[proposer].inc == nil {
+			return false
+		}
+		rep := w.CallAPI(w.Nodes[proposer], "startDKG", "POST", "/startDKG", payload)
+		if rep.Crashed {
+			return false
+		}
+		if !rep.OK() {
+			w.Fail("C13", "startdkg-rejected", rep.ErrMsg)
+		}
+		return true
+	}
+	c.L.AfterStep = func() {
+		step()
+		for len(retry) > 0 && !w.Failed() {
+			if !retry[0]() {
+				break
+			}
+			retry = retry[1:]
+		}
+	}
+	if !post() {
+		retry = append(retry, post)
+		step()
 	}
 	ready := c.RunDKG(round, members, 500*n)
 	if ready && !w.Failed() {
 		before := len(c.Tr.Order)
-		c.ProposeFiles(w.Tape.Choose(n, "proposer"), round, map[string][]byte{"c13 msg": []byte("payload to sign after a crash")})
+		p2 := w.Tape.Choose(n, "proposer")
+		propose := func() bool {
+			if len(c.Tr.Order) > before {
+				return true
+			}
+			if w.Nodes[p2].inc == nil {
+				return false
+			}
+			rep := c.ProposeFiles(p2, round, map[string][]byte{"c13 msg": []byte("payload to sign after a crash")})
+			return !rep.Crashed
+		}
+		if !propose() {
+			retry = append(retry, propose)
+			step()
+		}
 		c.L.RunUntil(func() bool {
 			return len(c.Tr.Order) > before && c.Tr.AllHaveBatch(c.Tr.LastBatch(), members) && c.AllInState(round, StIdle, members)
 		}, 400*n)
@@ -241,6 +280,14 @@ func runC13World(w *World, tier string, spec *crashSpec, out *c13Run) (bool, int
 	}
 	if spec != nil && !w.Failed() && !done {
 		ws := strings.Join(out.windows, " ; ")
+		for _, wd := range out.windows {
+			// the window "round state durable, operation not yet" explains a
+			// stall on its own (recorded finding); name it alone
+			if strings.Contains(wd, "/after=st.set:sim_fsm_state") && strings.Contains(wd, "_operations/") && strings.HasPrefix(wd, "task=poll/") {
+				ws = wd
+				break
+			}
+		}
 		if ws == "" {
 			ws = "no-crash-fired"
 		}
@@ -275,6 +322,7 @@ func c13Driver(t *testing.T, sc *Scenario, tier string, tape *sim.Tape, keepAll 
 		tp := tape.Fork()
 		tp.Params = params
 		return runBubble(t, tier, tp, keepAll, func(w *World) (bool, interface{}) {
+			w.Prop = "C13"
 			return runC13World(w, tier, specFrom(params), rec)
 		})
 	}
@@ -314,6 +362,7 @@ func c13Driver(t *testing.T, sc *Scenario, tier string, tape *sim.Tape, keepAll 
 		sort.Ints(positions)
 	}
 	tried := 0
+	var firstKnown *sim.RunResult
 	distinctWin := map[string]bool{}
 	runSub := func(params map[string]string) *sim.RunResult {
 		rec := &c13Run{}
@@ -327,6 +376,16 @@ func c13Driver(t *testing.T, sc *Scenario, tier string, tape *sim.Tape, keepAll 
 		agg.FakeSeconds += r.FakeSeconds
 		for _, wd := range rec.windows {
 			distinctWin[wd] = true
+		}
+		if r.Violation != nil && sim.IsKnownFinding(r.Violation.Property, r.Violation.Signature) {
+			// a recorded finding: remember one instance, keep enumerating
+			agg.Stats.Probe("known-finding-hit")
+			if firstKnown == nil {
+				r.Params = params
+				rr := r
+				firstKnown = &rr
+			}
+			return nil
 		}
 		if r.Violation != nil || r.Inconclusive != "" {
 			r.Params = params
@@ -364,6 +423,11 @@ func c13Driver(t *testing.T, sc *Scenario, tier string, tape *sim.Tape, keepAll 
 			bad.Stats = agg.Stats
 			return *bad
 		}
+	}
+	if firstKnown != nil {
+		agg.Violation = firstKnown.Violation
+		agg.Params = firstKnown.Params
+		agg.Tape = firstKnown.Tape
 	}
 	agg.NonTrivial = tried > 0
 	agg.Sample = map[string]interface{}{"reference": res.Sample, "victim_gates": total, "sub_runs": tried, "first_gates": head(ref.victimGates, 12)}
